@@ -124,9 +124,12 @@ Definition w_merge_tie := mk FMerge 0 0 P0 (SList [-1]) (SList [1]) None None (S
 (* (some (lambda (x) (if (< 1 x) x nil)) '(1 2 3)) => t *)
 Definition w_some_value :=
   mkCall FSome 0 0 (PT TLt 1) (SList [1;2;3]) SNil None None false None None None TDefault CAbsent false BAdd None 1 true TrNum.
-(* (reduce '+ '()) => nil; (reduce '+ '(1 2 3) :start 3) => type-error *)
+(* (reduce '+ '()) => nil; (reduce '+ '(1 2 3) :start 3) => nil (was a type-error; the language says 0);
+   (reduce '+ '(1 2 3) :start 3 :initial-value 7) => 7 (repaired: was a type-error) *)
 Definition w_reduce_empty := mk FReduce 0 0 P0 (SList []) SNil None None None TDefault CAbsent false.
 Definition w_reduce_start := mk FReduce 0 0 P0 (SList [1;2;3]) SNil (Some 3%nat) None None TDefault CAbsent false.
+Definition w_reduce_start_init :=
+  mkCall FReduce 0 0 P0 (SList [1;2;3]) SNil (Some 3%nat) None false None None None TDefault CAbsent false BAdd (Some 7) 1 false TrT.
 (* (remove-duplicates '(1 2 1) :test '/=) => (1 1); (remove-duplicates '(1 2 3) :test '< :from-end t) => (1 2 3) *)
 Definition w_dups_ne := mk FRemoveDuplicates 0 0 P0 (SList [1;2;1]) SNil None None None (TTest TNe) CAbsent false.
 Definition w_dups_from_end := mk FRemoveDuplicates 0 0 P0 (SList [1;2;3]) SNil None None None (TTest TLt) CAbsent true.
@@ -157,7 +160,8 @@ Definition repaired_witnesses : list (call * res) :=
   [ (w_count_utf8, RInt 2); (w_count_nil, RSeq [2]); (w_assoc_nil, RNil);
     (w_subseq_nil, RSeq []); (w_every_nil, RTrue); (w_subsetp_nil, RTrue); (w_reduce_nil, RElt 5);
     (w_map_nil, RSeq []); (w_merge_nil, RSeq [1]); (w_search_from_end, RInt 0); (w_search_empty, RInt 1);
-    (w_mismatch_start, RInt 2); (w_replace_end, RSeq [9;9;3]) ].
+    (w_mismatch_start, RInt 2); (w_replace_end, RSeq [9;9;3]);
+    (w_reduce_start_init, RElt 7) ].
 Definition repaired_ok (cr : call * res) : bool :=
   in_domain (fst cr) &&
   match m_call (fst cr), s_call (fst cr) with
